@@ -97,8 +97,19 @@ def tla_key(key):
     return [{"v": values.to_tla(k[0]), "coll": (k[1] or "binary").lower(), "desc": bool(k[2])} for k in key]
 
 
+_hk = [0]
+
+
 def harness_key(key):
-    return [{"v": values.to_jval(k[0]), "coll": (k[1] or "").lower(), "desc": bool(k[2])} for k in key]
+    """the default collation is passed the way the library's own callers pass it -- as the empty string -- two times out
+    of three, and by name ("binary") otherwise"""
+    _hk[0] += 1
+    byname = _hk[0] % 3 == 0
+
+    def coll(c):
+        c = (c or "").lower()
+        return "" if c == "binary" and not byname else c
+    return [{"v": values.to_jval(k[0]), "coll": coll(k[1]), "desc": bool(k[2])} for k in key]
 
 
 class OpSet:
